@@ -45,7 +45,7 @@ def show_lin(lf, names=None):
 
 
 class Acct:
-    def __init__(self, a, len_field, buf_field, self_local=1, consumed_index=None):
+    def __init__(self, a, len_field, buf_field, self_local=1, consumed_index=None, spec=None):
         self.a = a
         self.body = a.body
         self.len_field = len_field
@@ -55,14 +55,18 @@ class Acct:
         self.issues = []        # (kind, block, detail)
         self.cissues = []       # consumed != appended
         self.consumed_index = consumed_index
+        self.spec = spec          # callable(acct, env, return block) -> [(construct, message)] evaluated on every path
+        self.spec_issues = []
+        self.carriers = set()
         self.npaths = 0
         self.checked = 0
 
     # -- places ---------------------------------------------------------------------------------
-    def field_of_self(self, pl):
-        """name if place is (*self).name"""
+    def field_of_self(self, pl, env=None):
+        """name if place is (*self).name (self: the receiver, or a reborrow of it held in another local)"""
         p = pl.get('p')
-        if pl['l'] == self.self_local and p and len(p) == 2 and p[0] == '*' and isinstance(p[1], dict) and 'f' in p[1]:
+        is_self = pl['l'] == self.self_local or (env is not None and env.get(('l', pl['l'])) == ('selfref',))
+        if is_self and p and len(p) == 2 and p[0] == '*' and isinstance(p[1], dict) and 'f' in p[1]:
             return p[1].get('n', str(p[1]['f']))
         return None
 
@@ -70,7 +74,7 @@ class Acct:
         p = pl.get('p')
         if not p:
             return env.get(('l', pl['l']))
-        f = self.field_of_self(pl)
+        f = self.field_of_self(pl, env)
         if f is not None:
             return env.get(('f', f), {('init', f): 1} if f != self.len_field else {'L0': 1})
         base = env.get(('l', pl['l']))
@@ -82,7 +86,12 @@ class Acct:
         # checked arithmetic tuple: .0 is the value
         if len(p) == 1 and isinstance(p[0], dict) and p[0].get('f') == 0 and isinstance(base, tuple) and base[0] == 'ovf':
             return base[1]
-        # (x as Some).0 of an opaque option: opaque payload, stable per local
+        if len(p) == 1 and isinstance(p[0], dict) and 'f' in p[0] and isinstance(base, tuple) and base[0] == 'tuple' and p[0]['f'] < len(base[1]):
+            return base[1][p[0]['f']]
+        # (x as Some).0 of the option a boundary search returned: its payload
+        if len(p) == 2 and isinstance(p[0], dict) and p[0].get('dc') == 'Some' and isinstance(p[1], dict) and p[1].get('f') == 0 \
+                and isinstance(base, tuple) and base[0] == 'opt':
+            return {('pay', base[1]): 1}
         return None
 
     def read_key(self, k, env):
@@ -114,15 +123,24 @@ class Acct:
         if 'p' not in d:
             if val is None:
                 val = {('v',) + site: 1} if self.is_int(d['l']) else None
+            if self.spec and d['l'] in self.carriers and is_lin(val):
+                before = env.get(('l', d['l']))
+                if is_lin(before):
+                    env['EV'] = env['EV'] + [('inc', site, lin_add(val, before, -1), before, val)]
             if val is None:
                 env.pop(('l', d['l']), None)
             else:
                 env[('l', d['l'])] = val
             return
-        f = self.field_of_self(d)
+        f = self.field_of_self(d, env)
         if f is not None:
             if val is None:
                 val = {('v',) + site: 1}
+            if f == self.len_field and self.spec:
+                copied = any(is_lin(val) and env.get(('l', c)) == val for c in self.carriers)
+                if not copied:
+                    before = self.read_key(('f', f), env)
+                    env['EV'] = env['EV'] + [('inc', site, lin_add(val, before, -1) if is_lin(val) and is_lin(before) else None, before, val)]
             env[('f', f)] = val
             if f == self.buf_field:
                 env['BUF'] = None
@@ -159,6 +177,9 @@ class Acct:
             if op in ('AddO', 'SubO', 'MulO'):
                 return ('ovf', val if val is not None else {('v',) + site: 1})
             return val
+        if k == 'discr':
+            v = env.get(('l', r['p']['l'])) if 'p' not in r['p'] else None
+            return ('disc', v[1]) if isinstance(v, tuple) and v[0] == 'opt' else None
         if k == 'un' and r.get('op') == 'Not':
             v = self.operand(r['a'], env)
             if isinstance(v, tuple) and v[0] == 'cmp':
@@ -172,9 +193,11 @@ class Acct:
             if not pl:
                 return None
             p = pl.get('p')
-            f = self.field_of_self(pl)
+            f = self.field_of_self(pl, env)
             if f is not None:
                 return ('ref', ('f', f))
+            if p == ['*'] and (pl['l'] == self.self_local or env.get(('l', pl['l'])) == ('selfref',)):
+                return ('selfref',)
             if not p:
                 return ('ref', ('l', pl['l']))
             if p == ['*']:
@@ -217,7 +240,26 @@ class Acct:
         touches_buf = any(isinstance(x, tuple) and x[0] == 'ref' and x[1] == ('f', self.buf_field) for x in args)
         mut_buf = touches_buf and any(self.body['locals'][(o.get('mv') or o.get('cp') or {'l': 0})['l']].get('ty', '').startswith('&mut')
                                       for o, x in zip(t['args'], args) if isinstance(x, tuple) and x[0] == 'ref' and x[1] == ('f', self.buf_field))
-        if nm == 'len' and args:
+        if nm == 'min' and len(args) == 2 and ('cmp::min' in fn or 'Ord::min' in fn):
+            out = {('v', b, 'call'): 1}
+            if self.spec:
+                env['MIN'] = dict(env['MIN'])
+                env['MIN'][('v', b, 'call')] = (args[0], args[1])
+        elif nm == 'next_match' and len(args) >= 2:
+            sv = args[1]
+            if isinstance(sv, tuple) and sv[0] == 'ref':
+                sv = self.read_key(sv[1], env)
+            out = ('opt', b)
+            if self.spec:
+                env['NM'] = env['NM'] + [(b, sv, self.read_key(('f', self.len_field), env) if not self.carriers else [env.get(('l', c)) for c in sorted(self.carriers)][0])]
+        elif nm in ('is_some', 'is_none') and args and isinstance(args[0], tuple) and (args[0][0] == 'opt' or (args[0][0] == 'ref' and isinstance(self.read_key(args[0][1], env), tuple) and self.read_key(args[0][1], env)[0] == 'opt')):
+            ov = args[0] if args[0][0] == 'opt' else self.read_key(args[0][1], env)
+            out = ('issome', ov[1], nm == 'is_some')
+        elif nm == 'unwrap_or' and len(args) == 2 and isinstance(args[0], tuple) and args[0][0] == 'opt':
+            out = {('uo', args[0][1]): 1}
+            env['UO'] = dict(env.get('UO', {}))
+            env['UO'][args[0][1]] = args[1]
+        elif nm == 'len' and args:
             out = self.slice_len(args[0], env)
         elif nm == 'is_empty' and args:
             ln = self.slice_len(args[0], env)
@@ -307,11 +349,15 @@ class Acct:
         self.checked += 1
         cur = self.read_key(('f', self.len_field), env)
         buf = env.get('BUF')
-        if not self.equal(buf, cur, env['EQS']):
+        if not self.equal(buf, cur, env['EQS']) and not any(self.equal(buf, env.get(('l', c)), env['EQS']) for c in self.carriers):
             self.issues.append(('mismatch', b, 'at the %s the buffer holds %s bytes while %s is %s' % (what, self.show(buf), self.len_field, self.show(cur))))
 
     def at_return(self, b, env):
         self.checked += 1
+        if self.spec:
+            for it in self.spec(self, env, b):
+                if it not in self.spec_issues:
+                    self.spec_issues.append(it)
         if self.consumed_index is not None:
             rv = env.get(('l', 0))
             cons = rv[1][self.consumed_index] if isinstance(rv, tuple) and rv[0] == 'tuple' and len(rv[1]) > self.consumed_index else None
@@ -345,11 +391,25 @@ class Acct:
         if a.cfg.loops():
             self.issues.append(('unknown', 0, 'the function contains a loop: path-wise length accounting does not apply'))
             return self
-        env0 = {'BUF': {'L0': 1}, 'EQS': [], 'APP': {}, 'APPBASE': None}
+        env0 = {'BUF': {'L0': 1}, 'EQS': [], 'APP': {}, 'APPBASE': None, 'EV': [], 'MIN': {}, 'NM': [], 'OPT': {}, 'DEC': {}}
         for i in range(1, self.body['argc'] + 1):
             ty = self.body['locals'][i].get('ty', '')
             if ty.startswith('&[') or ty.startswith('&mut ['):
                 env0[('l', i)] = ('slice', {('N', self.body['locals'][i].get('n', str(i))): 1}, self.body['locals'][i].get('n', str(i)), {})
+        env0[('l', self.self_local)] = ('selfref',)
+        # carriers: locals that hold a copy of the length field and are written back to it (the function may keep the
+        # running length in a local and store it once at the end)
+        self.carriers = set()
+        from . import flow as flowm
+        for l_, ds_ in a.flow.defs.items():
+            def is_field(e):
+                return e[0] == 'field' and e[2] == self.len_field and e[1][0] == 'param' and e[1][1] == self.self_local
+            inits = [d_ for d_ in ds_ if d_[0] == 'assign' and is_field(a.flow.rvalue(d_[3], 0))]
+            if inits and len(ds_) >= 2:
+                for (b_, si_, st_) in a.stores_to_field(self.len_field):
+                    e_ = a.flow.rvalue(st_['r'], 0)
+                    if e_[0] == 'local' and e_[1] == l_:
+                        self.carriers.add(l_)
         rets = set(a.cfg.returns)
         seen_issue = set()
 
@@ -376,11 +436,36 @@ class Acct:
                 v = self.operand(t['d'], env)
                 for s in a.cfg.succ[b]:
                     e2 = env
+                    if isinstance(v, tuple) and v[0] in ('disc', 'issome'):
+                        listed = {str(val): tgt for val, tgt in t['ts']}
+                        if v[0] == 'disc':
+                            some = (listed.get('1') == s) if '1' in listed else (s == t['o'] and '0' in listed)
+                        else:
+                            truth = not any(str(val) == '0' and tgt == s for val, tgt in t['ts'])
+                            some = truth == v[2]
+                        prev = env['OPT'].get(v[1])
+                        if prev is not None and prev != some:
+                            continue
+                        e2 = dict(env)
+                        e2['OPT'] = dict(env['OPT'])
+                        e2['OPT'][v[1]] = some
+                        walk(s, e2, depth + 1)
+                        continue
                     if isinstance(v, tuple) and v[0] == 'cmp' and is_lin(v[2]) and is_lin(v[3]):
                         isfalse = any(str(val) == '0' and tgt == s for val, tgt in t['ts'])
                         holds = not isfalse
+                        # the same test decided earlier on this path (operands unchanged: same linear forms) has the same outcome
+                        key = tuple(sorted(lin_add(v[2], v[3], -1).items(), key=str))
+                        NEG = {'Eq': 'Ne', 'Ne': 'Eq', 'Lt': 'Ge', 'Ge': 'Lt', 'Gt': 'Le', 'Le': 'Gt'}
+                        prev = env.get('DEC', {})
+                        if prev.get((v[1], key), holds) != holds or prev.get((NEG[v[1]], key), not holds) != (not holds):
+                            continue
+                        e2 = dict(env)
+                        e2['DEC'] = dict(prev)
+                        e2['DEC'][(v[1], key)] = holds
+                        env_for = e2
                         if (v[1] == 'Eq' and holds) or (v[1] == 'Ne' and not holds):
-                            e2 = dict(env)
+                            e2 = dict(e2)
                             e2['EQS'] = env['EQS'] + [lin_add(v[2], v[3], -1)]
                     elif isinstance(v, tuple) and v[0] == 'bool':
                         isfalse = any(str(val) == '0' and tgt == s for val, tgt in t['ts'])
@@ -407,3 +492,154 @@ class Acct:
         self.issues = out
         self.cissues = sorted(set(self.cissues))
         return self
+
+
+def facts_of(env):
+    """decided comparisons of the path as inequalities: [(linear form e, strict)] meaning e < 0 (strict) or e <= 0"""
+    out = []
+    for (op, key), truth in env.get('DEC', {}).items():
+        d = dict(key)
+        neg = {k: -v for k, v in d.items()}
+        if op == 'Lt':
+            out.append((d, True) if truth else (neg, False))
+        elif op == 'Le':
+            out.append((d, False) if truth else (neg, True))
+        elif op == 'Gt':
+            out.append((neg, True) if truth else (d, False))
+        elif op == 'Ge':
+            out.append((neg, False) if truth else (d, True))
+    return out
+
+
+def chunker_spec(ac, env, b):
+    """The size rules of a content-defined chunker, stated on one path (all quantities are linear forms):
+      * every advance of the tracked length C is zero, the *skip* min(threshold - C - k, N - consumed) taken under
+        C + k' < threshold, or the *scan advance*;
+      * the boundary search looks at data[consumed .. min(N, consumed + maximum - C)] (consumed = C - L0);
+      * the scan advance is the match position / the window length where that plus C stays below the maximum, and
+        maximum - C where it does not (or their minimum)."""
+    issues = []
+    L0 = {'L0': 1}
+    eqs = env['EQS']
+    facts = facts_of(env)
+    mins = env['MIN']
+
+    def consumed(C):
+        return lin_add(C, L0, -1)
+
+    def n_atoms(z):
+        return [k for k in z if isinstance(k, tuple) and k[0] == 'N']
+
+    def is_input_left(z, C):
+        # N - consumed
+        na = n_atoms(z)
+        return len(na) == 1 and ac.equal(z, lin_add({na[0]: 1}, consumed(C), -1), eqs)
+
+    def rel_threshold(z, C, want_const=True):
+        """z + C == field - k (k >= 0): a bound relative to the open chunk; returns the field name"""
+        d = lin_add(z, C)
+        fs = [k for k in d if isinstance(k, tuple) and k[0] == 'init' and k[1] != ac.len_field]
+        if len(fs) == 1 and d[fs[0]] == 1 and set(d) <= {fs[0], 1} and d.get(1, 0) <= 0:
+            return fs[0][1]
+        return None
+
+    def holds(e, strict):
+        for (f, st) in facts:
+            if ac.equal(f, e, eqs) and (st or not strict):
+                return True
+        return False
+
+    def minlike(x, pa, pb):
+        """x = min(a, b) with pa(a), pb(b): a min() call, or one of the operands chosen by a decided comparison"""
+        if is_lin(x) and len(x) == 1:
+            k = next(iter(x))
+            if x[k] == 1 and k in mins:
+                a_, b_ = mins[k]
+                if is_lin(a_) and is_lin(b_) and ((pa(a_) and pb(b_)) or (pa(b_) and pb(a_))):
+                    return True
+                return False
+        if not is_lin(x):
+            return False
+        for (me, other) in ((pa, pb), (pb, pa)):
+            if me(x):
+                # x <= y decided for some y with other(y)
+                for (f, st) in facts:
+                    y = lin_add(x, f, -1)       # f = x - y  =>  y = x - f
+                    if other(y):
+                        return True
+        return False
+
+    incs = [e for e in env['EV'] if e[0] == 'inc']
+    nm = env['NM']
+    if len(nm) > 1:
+        issues.append(('next_match', 'more than one boundary search on a path'))
+        return issues
+    scan = None
+    if nm:
+        bcall, sv, c_at = nm[0]
+        if not (isinstance(sv, tuple) and sv[0] == 'slice' and len(sv) > 3 and is_lin(sv[1]) and is_lin(sv[3]) and is_lin(c_at)):
+            issues.append(('window', 'the slice handed to the boundary search cannot be evaluated'))
+            return issues
+        ln, st = sv[1], sv[3]
+        if not ac.equal(st, consumed(c_at), eqs):
+            issues.append(('skip cursor', 'the boundary search starts at input offset %s although %s bytes of the input were added to the open chunk' % (ac.show(st), ac.show(consumed(c_at)))))
+        end = lin_add(st, ln)
+        is_n = lambda z: len(n_atoms(z)) == 1 and ac.equal(z, {n_atoms(z)[0]: 1}, eqs)
+        is_rel_max = lambda z: rel_threshold(lin_add(z, consumed(c_at), -1), c_at) is not None and lin_add(lin_add(z, consumed(c_at), -1), c_at).get(1, 0) == 0
+        if not minlike(end, is_n, is_rel_max):
+            issues.append(('window', 'the boundary search window ends at %s, not at min(len, consumed + maximum_chunk - cur_chunk_len)' % ac.show(end)))
+        some = env['OPT'].get(bcall)
+        uo = env.get('UO', {}).get(bcall)
+        scan = [{('pay', bcall): 1}] if some else [ln]
+        if uo is not None and is_lin(uo) and ac.equal(uo, ln, eqs):
+            scan.append({('uo', bcall): 1})
+    seen_scan = False
+    for (_, site, X, C, V) in incs:
+        if X is None or not is_lin(C):
+            issues.append(('skip bound', 'an update of the open-chunk length cannot be evaluated'))
+            continue
+        if not X or V == {}:
+            continue
+        scan_failed = False
+        # the scan advance
+        if scan is not None and not seen_scan:
+            mx = [k for k in lin_add(X, C) if isinstance(k, tuple) and k[0] == 'init' and k[1] != ac.len_field]
+            ok = False
+            for sc in scan:
+                tot = lin_add(sc, C)
+                if ac.equal(X, sc, eqs):
+                    # below the maximum: (sc + C - max) < 0 decided for some field max, or a clamp min(sc, max - C)
+                    ok = ok or any(st_ and any(ac.equal(f, lin_add(tot, {k: 1}, -1), eqs) for k in [kk for kk in f if isinstance(kk, tuple) and kk[0] == 'init']) for (f, st_) in facts)
+                if len(mx) == 1 and ac.equal(lin_add(X, C), {mx[0]: 1}, eqs):
+                    # forced: X = max - C, decided (max - sc - C) <= 0
+                    ok = ok or holds(lin_add({mx[0]: 1}, tot, -1), False)
+                ok = ok or minlike(X, lambda z, sc=sc: ac.equal(z, sc, eqs), lambda z: rel_threshold(z, C) is not None and lin_add(z, C).get(1, 0) == 0)
+            if ok:
+                seen_scan = True
+                continue
+            scan_failed = True
+        # the skip
+        fld = [None]
+        def pa(z):
+            f_ = rel_threshold(z, C)
+            if f_ is not None:
+                fld[0] = f_
+            return f_ is not None
+        is_skip = not seen_scan and minlike(X, pa, lambda z: is_input_left(z, C))
+        if is_skip and fld[0] is not None and not any(isinstance(k, tuple) and k[0] == 'N' for k in X) and not (len(X) == 1 and next(iter(X)) in mins):
+            # X itself is the threshold operand: then the decided comparison must bound it by the input left
+            pass
+        if is_skip:
+            # guard: C + k < threshold
+            def is_guard(f):
+                d = lin_add(f, C, -1)
+                return set(d) <= {('init', fld[0]), 1} and d.get(('init', fld[0])) == -1 and d.get(1, 0) >= 0
+            okg = any(st_ and is_guard(f) for (f, st_) in facts)
+            if not okg:
+                issues.append(('skip site', 'the minimum-size skip is taken without a cur_chunk_len + k < %s test on the path' % fld[0]))
+            continue
+        if scan_failed:
+            issues.append(('forced cut', 'the open-chunk length advances by %s after the boundary search: neither the scanned amount below the maximum nor maximum_chunk - cur_chunk_len where the maximum is reached' % ac.show(X)))
+            continue
+        issues.append(('skip bound', 'the open-chunk length advances by %s (from %s), which is neither min(threshold - cur_chunk_len - k, unconsumed input) nor the advance of the boundary search' % (ac.show(X), ac.show(C))))
+    return issues
